@@ -877,6 +877,9 @@ bool DirectProtocolHandler::getAnswer() {
   // walk through the stored answers to find the longest match
   m_response.clear();
   size_t len = m_command[4];
+  if (len > 4) {
+    len = 4;  // answers are registered with at most 4 ID bytes
+  }
   bool master = isMaster(m_command[1]);
   uint64_t key = createAnswerKey(m_command[0], m_command[1], m_command[2], m_command[3], m_command.data()+5, len);
   do {
